@@ -25,6 +25,9 @@ ASSUMPTIONS = ['keys of different subsets differ: 16 random bytes, collision pro
 CONFIGS = [(m, t) for m in range(1, 9) for t in range(0, m) if (2 * t < m or m == 1) and math.comb(m, t) <= 56]
 
 
+TIMEOUT_INCONCLUSIVE = True  # hangs are decided by quiescence in the simulator, not by the wall clock
+
+
 def budget(tier):
     return dict(shards=16, examples=12 if tier == 'quick' else 200)
 
